@@ -97,12 +97,97 @@ fn unverified_third_party_tables() -> Option<String> {
     None
 }
 
+/// F4: blocks using 3.3 features must declare version 6 (DATALOG_3_3)
+fn schema_version_features() -> Option<String> {
+    let cases: Vec<(&str, &str)> = vec![
+        ("array literal in a fact", "f([1, 2, 3])"),
+        ("map literal in a fact", "f({\"a\": 1})"),
+        ("null nested in an array", "f([null])"),
+        ("array literal in a check", "check if [1, 2].contains(1)"),
+        (".get() in a check", "check if g($x), $x.get(0) < 2"),
+        ("null in a fact (control: detected)", "f(null)"),
+    ];
+    let mut bad = vec![];
+    for (name, src) in cases {
+        let root = KeyPair::new();
+        let b = if src.starts_with("check") { Biscuit::builder().check(src) } else { Biscuit::builder().fact(src) };
+        let b = match b { Ok(b) => b, Err(e) => { bad.push(format!("{}: builder refused {:?}", name, e)); continue } };
+        let t = match b.build(&root) { Ok(t) => t, Err(e) => { bad.push(format!("{}: build failed {:?}", name, e)); continue } };
+        let v = t.block_version(0).unwrap();
+        if v < 6 { bad.push(format!("{} ({}) is declared version {}", name, src, v)); }
+    }
+    if bad.is_empty() { None } else { Some(bad.join("; ")) }
+}
+
+/// re-sign, under a fresh root key, the authority block of `t` with its declared version forced to `v`
+/// (v0 signature layout: payload ++ le32(alg) ++ next key bytes); returns (root public key, token bytes)
+fn redeclare_authority_version(t: &Biscuit, v: u32) -> (PublicKey, Vec<u8>) {
+    use prost::Message;
+    use biscuit_auth::format::schema;
+    let bytes = t.to_vec().unwrap();
+    let tok = schema::Biscuit::decode(&bytes[..]).unwrap();
+    let mut blk = schema::Block::decode(&tok.authority.block[..]).unwrap();
+    blk.version = Some(v);
+    let mut payload = Vec::new();
+    blk.encode(&mut payload).unwrap();
+    let root = KeyPair::new();
+    let next = KeyPair::new();
+    let mut to_sign = payload.clone();
+    to_sign.extend(&(0i32).to_le_bytes());
+    to_sign.extend(next.public().to_bytes());
+    let sig = root.sign(&to_sign).unwrap();
+    let forged = schema::Biscuit {
+        root_key_id: None,
+        authority: schema::SignedBlock {
+            block: payload,
+            next_key: next.public().to_proto(),
+            signature: sig.to_bytes().to_vec(),
+            external_signature: None,
+            version: None,
+        },
+        blocks: vec![],
+        proof: schema::Proof { content: Some(schema::proof::Content::NextSecret(next.private().to_bytes().to_vec())) },
+    };
+    let mut out = Vec::new();
+    forged.encode(&mut out).unwrap();
+    (root.public(), out)
+}
+
+/// C16, second half: a block whose declared version is lower than a feature it contains must be refused
+fn underdeclared_block_accepted() -> Option<String> {
+    let cases: Vec<(&str, &str, u32)> = vec![
+        ("null term declared 3.0", "f(null)", 3),
+        ("null term declared 3.1 (control)", "f(null)", 4),
+        ("array declared 3.0", "f([1, 2])", 3),
+        ("array declared 3.2", "f([1, 2])", 5),
+        ("map declared 3.0", "f({\"a\": 1})", 3),
+    ];
+    let mut bad = vec![];
+    for (name, src, v) in cases {
+        let root = KeyPair::new();
+        let t = Biscuit::builder().fact(src).unwrap().build(&root).unwrap();
+        let (pk, bytes) = redeclare_authority_version(&t, v);
+        match Biscuit::from(&bytes, pk) {
+            Ok(tok) => {
+                // "rejected before it can be evaluated": building an authorizer must fail
+                if tok.authorizer().is_ok() {
+                    bad.push(format!("{}: a block containing `{}` declared version {} is loaded into an authorizer (block_version = {:?})", name, src, v, tok.block_version(0)));
+                }
+            }
+            Err(_) => {}
+        }
+    }
+    if bad.is_empty() { None } else { Some(bad.join("; ")) }
+}
+
 fn main() {
     let case = std::env::args().nth(1).unwrap_or_default();
     let w = match case.as_str() {
         "block_index" => block_index(),
         "unverified_third_party_unwrap" => unverified_third_party_unwrap(),
         "unverified_third_party_tables" => unverified_third_party_tables(),
+        "schema_version_features" => schema_version_features(),
+        "underdeclared_block_accepted" => underdeclared_block_accepted(),
         _ => { eprintln!("unknown case {}", case); std::process::exit(2) }
     };
     match w {
